@@ -138,7 +138,7 @@ def plan_back_conversion_callable(
             raise UPUsageError
         state = simulator.apply(cast(State, state), action_instance)
         assert state is not None
-    ttp = TimeTriggeredPlan(ttptuples)
+    ttp = TimeTriggeredPlan(ttptuples, problem.environment)
     return ttp
 
 
@@ -387,7 +387,7 @@ class TimedToSequential(engines.engine.Engine, CompilerMixin):
             pdict = OrderedDict()
             for p in action.parameters:
                 pdict[p.name] = p.type
-            new_action = InstantaneousAction(action.name, pdict)
+            new_action = InstantaneousAction(action.name, pdict, _env=env)
             assert isinstance(action, DurativeAction)
 
             (
